@@ -245,9 +245,9 @@ func HarnessC13Convert() {
 // srvMalformed builds a tree of the given depth; at every position it may omit what the
 // wire format allows to be absent.
 func srvMalformed(depth int) *proto.Query_Expression {
-	kinds := 3
+	kinds := 4
 	if depth > 0 {
-		kinds = 7
+		kinds = 8
 	}
 	switch verifChoice("node", kinds) {
 	case 0:
@@ -256,11 +256,13 @@ func srvMalformed(depth int) *proto.Query_Expression {
 		return &proto.Query_Expression{} // oneof not set
 	case 2:
 		return pEq("nosuch", "v")
-	case 3:
-		return pNot(nil) // NOT without operand
+	case 3: // a placeholder nobody resolved (the server is not given arguments)
+		return &proto.Query_Expression{Value: &proto.Query_Expression_Eq{Eq: &proto.Query_Expression_Equal{Column: "a", Placeholder: 1}}}
 	case 4:
-		return pNot(srvMalformed(depth - 1))
+		return pNot(nil) // NOT without operand
 	case 5:
+		return pNot(srvMalformed(depth - 1))
+	case 6:
 		n := verifChoice("operands", 3)
 		var es []*proto.Query_Expression
 		for i := 0; i < n; i++ {
